@@ -1,4 +1,79 @@
-import Gzx.Model.RS
-import Gzx.Ref.GF
+/-
+  C04 — Reed-Solomon codec and GF(2^m) arithmetic exact up to the design distance.
+  Property theorems only; helper lemmas live in Gzx/Proofs/{GF2,GF,Poly,RS}.lean.
+  Models: Gzx/Model/GF.lean, Gzx/Model/RS.lean (tied to common/reedsolomon/*.go by the `c04`
+  correspondence suite); reference arithmetic: Gzx/Ref/GF.lean (`clmul`, `pmod`).
+  Every theorem is parametric in the field `F` with the decidable hypothesis `FieldOK F`
+  (`F` is what `NewGenericGF` builds, size a power of two, prim of that degree with constant term 1,
+  x of multiplicative order size-1); `Obligations/C04.lean` discharges it for the parameters
+  regenerated from /repo on every run.
+-/
+import Gzx.Proofs.GF
 namespace Gzx.Properties.C04
+open Gzx Gzx.GF Gzx.Ref.GF Gzx.Proofs.GF
+
+/-! ## (a) field arithmetic = polynomial arithmetic modulo the primitive polynomial -/
+
+/-- Clause "multiplication agrees with polynomial arithmetic modulo the field's primitive
+    polynomial for all elements": the table-driven `Multiply` is the carry-less product reduced
+    modulo `prim`, for every field satisfying `FieldOK` (so GF(4096) like GF(16)) and all elements. -/
+theorem gf_mul_eq_clmul_mod (F : GF) (h : FieldOK F) (a b : Nat) (ha : a < F.size) (hb : b < F.size) :
+    F.mul a b = .ok (pmod F.prim (clmul a b)) := by
+  have := mk'_mul h.2 F.base a b ha hb
+  rw [← h.1] at this
+  exact this
+
+/-- Clause "inverse": `Inverse(a)` succeeds for every non-zero element and `a * Inverse(a) = 1`
+    (both by the table-driven `Multiply` and by the reference product). -/
+theorem gf_inv (F : GF) (h : FieldOK F) (a : Nat) (h0 : a ≠ 0) (ha : a < F.size) :
+    ∃ v, F.inv a = .ok v ∧ v < F.size ∧ F.mul a v = .ok 1 ∧ pmod F.prim (clmul a v) = 1 := by
+  obtain ⟨v, h1, h2, _, h4⟩ := mk'_inv h.2 F.base a h0 ha
+  rw [← h.1] at h1
+  refine ⟨v, h1, h2, ?_, h4⟩
+  rw [gf_mul_eq_clmul_mod F h a v ha h2]
+  exact congrArg _ h4
+
+/-- `Inverse(0)` and `Log(0)` are Go's checked `IllegalArgumentException`, not a panic -/
+theorem gf_inv_log_zero (F : GF) : F.inv 0 = .error .illegalArg ∧ F.logOf 0 = .error .illegalArg :=
+  ⟨rfl, rfl⟩
+
+/-- Clause "exp(log a) == a" for every non-zero element; the logarithm is `< size-1`. -/
+theorem gf_exp_log (F : GF) (h : FieldOK F) (a : Nat) (h0 : a ≠ 0) (ha : a < F.size) :
+    ∃ l, F.logOf a = .ok l ∧ l < F.size - 1 ∧ F.expAt l = .ok a := by
+  have := mk'_log h.2 F.base a h0 ha
+  rw [← h.1] at this
+  exact this
+
+/-- `log(exp i) == i` for every exponent below the group order; `exp i` is a non-zero element. -/
+theorem gf_log_exp (F : GF) (h : FieldOK F) (i : Nat) (hi : i < F.size - 1) :
+    ∃ v, F.expAt i = .ok v ∧ v ≠ 0 ∧ v < F.size ∧ F.logOf v = .ok i := by
+  have := mk'_exp h.2 F.base i hi
+  rw [← h.1] at this
+  exact this
+
+/-- Clause "exponent": `Exp(i)` is `x^i` reduced modulo `prim` (long division), for every table index. -/
+theorem gf_exp_eq_pow_mod (F : GF) (h : FieldOK F) (i : Nat) (hi : i < F.size) :
+    F.expAt i = .ok (pmod F.prim (2 ^ i)) := by
+  have := exp_get h.2 F.base i hi
+  rw [← h.1, pw_eq_pmod h.2] at this
+  exact this
+
+/-- outside the table `Exp` is a Go index panic (the model never hides it) -/
+theorem gf_exp_out_of_range (F : GF) (h : FieldOK F) (i : Nat) (hi : ¬ i < F.size) :
+    ∃ w, F.expAt i = .error (.panic w) := by
+  have := exp_get_oob (prim := F.prim) (size := F.size) F.base i hi
+  rw [← h.1] at this
+  exact this
+
+/-! non-vacuity: the hypotheses hold for the library's fields (all six: `Obligations/C04.lean`) -/
+example : FieldOK qrCode256 := fieldOK_mk' (by decide +kernel)
+example : FieldOK aztecData12 := fieldOK_mk' (by decide +kernel)
+example : qrCode256.mul 0x53 0xCA = .ok (pmod 0x11D (clmul 0x53 0xCA)) :=
+  gf_mul_eq_clmul_mod _ (fieldOK_mk' (by decide +kernel)) _ _ (by decide) (by decide)
+example : pmod 0x11D (clmul 2 128) = 29 := by decide
+/-- a reducible "primitive" polynomial is rejected: x^8+1 -/
+example : ¬ ParamsOK 0x101 256 := by decide +kernel
+/-- an irreducible but non-primitive polynomial (x^8+x^4+x^3+x+1, AES) is rejected: x has order 51 -/
+example : ¬ ParamsOK 0x11B 256 := by decide +kernel
+
 end Gzx.Properties.C04
